@@ -183,12 +183,14 @@ PROPS['C04'] = Prop(
 _HT = ('%s with prototypes void(), void(uint32_t), void(const Big&), void(Trk, uint32_t) (Big: 48 bytes owning a heap cell; Trk: ledger-counted); one callback per prototype initially; '
        'K=%d steps from append/prepend callback of prototype p, remove through a handle, invoke/dispatch with the argument list of prototype p%s; payloads symbolic')
 PROPS['C14'] = Prop(
-    quick=[Run('heter_queue_k3', 'heter.cpp', {'OBJ': 2, 'KK': 3}, covers=6, bounds=_HT % ('HeterEventQueue', 3, ', enqueue of prototype p, process, processOne, processIf with a predicate callable with exactly one prototype or with all of them (verdict = function of the symbolic payload)')),
-           Run('heter_cl_k3', 'heter.cpp', {'OBJ': 0, 'KK': 3}, covers=1, bounds=_HT % ('HeterCallbackList', 3, '')),
-           Run('heter_disp_k3', 'heter.cpp', {'OBJ': 1, 'KK': 3}, covers=1, bounds=_HT % ('HeterEventDispatcher', 3, ''))],
-    thorough=[Run('heter_queue_k4', 'heter.cpp', {'OBJ': 2, 'KK': 4}, covers=6, budget_s=1700, bounds=_HT % ('HeterEventQueue', 4, ', enqueue, process, processOne, processIf')),
-              Run('heter_cl_k4', 'heter.cpp', {'OBJ': 0, 'KK': 4}, covers=1, budget_s=1700, bounds=_HT % ('HeterCallbackList', 4, '')),
-              Run('heter_disp_k4', 'heter.cpp', {'OBJ': 1, 'KK': 4}, covers=1, budget_s=1700, bounds=_HT % ('HeterEventDispatcher', 4, ''))],
+    quick=[Run('heter_queue_k2', 'heter.cpp', {'OBJ': 2, 'KK': 2}, covers=9, optional_covers=(1, 3), bounds=_HT % ('HeterEventQueue', 2, ', insert before a handle of any prototype, enqueue of prototype p (also with a convertible argument type), process, processOne, processIf with a predicate callable with exactly one prototype or with all of them (verdict = function of the symbolic payload), one re-entrant enqueue, final drain')),
+           Run('heter_queue_qops_k3', 'heter.cpp', {'OBJ': 2, 'KK': 3, 'QOPS_ONLY': None}, covers=9, optional_covers=(0, 6, 7), bounds=_HT % ('HeterEventQueue', 3, '; this run draws only queue operations: enqueue / process / processOne / processIf')),
+           Run('heter_cl_k2', 'heter.cpp', {'OBJ': 0, 'KK': 2}, covers=8, optional_covers=(1, 2, 3, 4, 5), bounds=_HT % ('HeterCallbackList', 2, ', insert before a handle of any prototype')),
+           Run('heter_disp_k2', 'heter.cpp', {'OBJ': 1, 'KK': 2}, covers=8, optional_covers=(1, 2, 3, 4, 5), bounds=_HT % ('HeterEventDispatcher', 2, ', insert before a handle of any prototype'))],
+    thorough=[Run('heter_queue_k3', 'heter.cpp', {'OBJ': 2, 'KK': 3}, covers=9, budget_s=1700, bounds=_HT % ('HeterEventQueue', 3, ', insert, enqueue, process, processOne, processIf')),
+              Run('heter_queue_qops_k4', 'heter.cpp', {'OBJ': 2, 'KK': 4, 'QOPS_ONLY': None}, covers=9, optional_covers=(0, 6, 7), budget_s=1700, bounds=_HT % ('HeterEventQueue', 4, '; queue operations only')),
+              Run('heter_cl_k3', 'heter.cpp', {'OBJ': 0, 'KK': 3}, covers=8, optional_covers=(1, 2, 3, 4, 5), budget_s=1700, bounds=_HT % ('HeterCallbackList', 3, ', insert')),
+              Run('heter_disp_k3', 'heter.cpp', {'OBJ': 1, 'KK': 3}, covers=8, optional_covers=(1, 2, 3, 4, 5), budget_s=1700, bounds=_HT % ('HeterEventDispatcher', 3, ', insert'))],
     outside='more than K steps; prototype lists other than the one instantiated; ArgumentPassingIncludeEvent for heterogeneous classes; callbacks callable with several prototypes',
     assumptions=['type confusion is observable three ways: ledger of the tracked types, engine memory checks (non-pointer data used as pointer, out of bounds), wrong trace'])
 
@@ -296,7 +298,7 @@ PROPS['C08'] = Prop(
            Run('c8_cl_nested_a2', 'cl_nested.cpp', {'N0': 3, 'AA': 2, 'DD': 2, 'TRACKED': None}, covers=6, optional_covers=(5,), bounds=_C8 + 'C02 nested programs, 3 callbacks, A=2: a removed callback is released once no invocation that was running is in progress'),
            Run('c8_q_history_byvalue_k3', 'q_history.cpp', {'KK': 3, 'RA': 1, 'PAYLOAD': 1}, covers=11, optional_covers=(11, 12), bounds=_C8 + 'C05 histories, K=3, RA=1, payload by value: exactly the pending events own live payloads; clearEvents releases before returning; recycled slots'),
            Run('c8_q_history_byref_k3', 'q_history.cpp', {'KK': 3, 'RA': 0, 'PAYLOAD': 2}, covers=11, optional_covers=(11, 12, 4, 5), bounds=_C8 + 'C05 histories, K=3, payload by const reference'),
-           Run('c8_heter_queue_k2', 'heter.cpp', {'OBJ': 2, 'KK': 2}, covers=6, optional_covers=(1, 2, 3, 4, 5), bounds=_C8 + 'C14 heterogeneous queue, K=2: slots recycled between prototypes of different types'),
+           Run('c8_heter_queue_k2', 'heter.cpp', {'OBJ': 2, 'KK': 2}, covers=9, optional_covers=(1, 2, 3, 4, 5, 6, 7, 8), bounds=_C8 + 'C14 heterogeneous queue, K=2: slots recycled between prototypes of different types'),
            _ft('c8_faults_queue', 1, 'EventQueue (exceptions): a throwing listener/predicate/copy/allocation never leaks or double-destroys a payload', optional_covers=(5,)),
            _ft('c8_faults_cl', 0, 'CallbackList (exceptions): failed copies and additions release every callback copy', optional_covers=(3,)),
            Run('c8_cl_threads_s1_p2', 'cl_threads.cpp', {'TT': 2, 'SS': 1}, preempt=2, covers=4, optional_covers=(2,), mt=True, bounds=_C8 + 'C03 two-thread schedules (S=1, P=2): no node or callback is leaked (shared_ptr cycle) under any interleaving')],
@@ -304,7 +306,7 @@ PROPS['C08'] = Prop(
               Run('c8_cl_nested_a3', 'cl_nested.cpp', {'N0': 3, 'AA': 3, 'DD': 2, 'TRACKED': None}, covers=6, budget_s=1700, bounds=_C8 + 'C02 nested programs, A=3'),
               Run('c8_q_history_byvalue_k4', 'q_history.cpp', {'KK': 4, 'RA': 1, 'PAYLOAD': 1}, covers=11, optional_covers=(11, 12), budget_s=1700, bounds=_C8 + 'C05 histories K=4 by value'),
               Run('c8_q_history_moveonly_k4', 'q_history.cpp', {'KK': 4, 'RA': 1, 'PAYLOAD': 3}, covers=11, optional_covers=(11, 12, 7), budget_s=1700, bounds=_C8 + 'C05 histories K=4 move-only'),
-              Run('c8_heter_queue_k3', 'heter.cpp', {'OBJ': 2, 'KK': 3}, covers=6, budget_s=1700, bounds=_C8 + 'C14 heterogeneous queue, K=3'),
+              Run('c8_heter_queue_k3', 'heter.cpp', {'OBJ': 2, 'KK': 3}, covers=9, budget_s=1700, bounds=_C8 + 'C14 heterogeneous queue, K=3'),
               _ft('c8_faults_queue_f2', 1, 'EventQueue (exceptions)', 2, optional_covers=(5,), budget_s=1700), _ft('c8_faults_cl_f2', 0, 'CallbackList (exceptions)', 2, optional_covers=(3,), budget_s=1700),
               Run('c8_cl_threads_s2_p1', 'cl_threads.cpp', {'TT': 2, 'SS': 2, 'OPSET': 1}, preempt=1, covers=4, mt=True, budget_s=1700, bounds=_C8 + 'C03 two-thread schedules S=2, P=1')],
     outside='the bounds of the underlying harnesses (C01, C02, C05, C14, C09, C03); copies/moves/swaps of whole containers are covered by the engine heap accounting in C10, not by a tracked build',
